@@ -87,3 +87,30 @@ def compute() -> Dict[str, List[List[str]]]:
         "probe_failures": failed,
     }
     return REACH
+
+
+_CLUSTERS: List[List[str]] = []
+
+
+def clusters() -> List[List[str]]:
+    """Reached site keys grouped: same file, consecutive lines at most six apart."""
+    global _CLUSTERS
+    if _CLUSTERS:
+        return _CLUSTERS
+    by_file: Dict[str, List[int]] = {}
+    for key in REACH:
+        f, ln = key.rsplit(":", 1)
+        by_file.setdefault(f, []).append(int(ln))
+    out: List[List[str]] = []
+    for f in sorted(by_file):
+        cur: List[int] = []
+        for ln in sorted(by_file[f]):
+            if cur and ln - cur[-1] > 6:
+                out.append(["%s:%d" % (f, x) for x in cur])
+                cur = []
+            cur.append(ln)
+        if cur:
+            out.append(["%s:%d" % (f, x) for x in cur])
+    _CLUSTERS = out
+    STATS["site_clusters_reached"] = len(out)
+    return out
